@@ -301,7 +301,7 @@ def run(ctx, pid):
         walks, left = g.edge_cover(rng)
         if left:
             raise vlib.Infra("edge cover incomplete (%s)" % s)
-        nsel = {True: 60, False: 2500}[quick]
+        nsel = 60 if quick else (400 if s.startswith("sysstop") else 1000)
         sel = vlib.sample(rng, walks, nsel)
         beh = []
         for w in sel:
@@ -318,7 +318,7 @@ def run(ctx, pid):
 
     def stress(s):
         trace = ctx.tmp("stress-%s.ndjson" % s)
-        n = 30 if quick else 600
+        n = 30 if quick else 300
         p = ctx.run([exe, "stress", sfile, s, str(n), str(ctx.seed * 1000 + len(s)), trace], timeout=2400)
         rs = json.loads(p.stdout.strip().splitlines()[-1])
         return "stress-" + s, trace, rs
